@@ -82,6 +82,17 @@ def _limit_memory():
         pass
 
 
+RUNAWAY_BUDGET_S = 240.0
+
+
+def _seam_runaway_spent():
+    try:
+        from . import seam
+        return seam.RUNAWAY_SPENT[0]
+    except Exception:
+        return 0.0
+
+
 def _worker(args):
     modname, prop, seed, tier, family, lo, hi = args
     global _MOD
@@ -94,6 +105,13 @@ def _worker(args):
     for idx in range(lo, hi):
         rng = derive_rng(seed, prop, family, idx)
         t0 = time.time()
+        if _seam_runaway_spent() > RUNAWAY_BUDGET_S:
+            # code under test whose simulator calls keep running into the 30 s runaway guard: after
+            # RUNAWAY_BUDGET_S of that in this worker the remaining runs are not attempted (never a
+            # verdict; counted under "skipped" in the evidence) instead of ending in a harness timeout
+            out.append({"skipped": "worker's runaway budget spent (simulator calls that do not return)",
+                        "_w": 0.0, "_id": (family, idx)})
+            continue
         try:
             signal.setitimer(signal.ITIMER_REAL, RUN_TIMEOUT_S)
             signal.setitimer(signal.ITIMER_VIRTUAL, RUN_CPU_TIMEOUT_S)
